@@ -8,6 +8,7 @@ filtered by the documented predicate (mc/refs/selects.py, ordering = independent
 Positional selectors: every islice argument triple over {None, 0, 1, 2, 5} on tables of 0..7 rows.
 """
 import itertools
+import re
 
 import petl as etl
 
@@ -24,6 +25,11 @@ RULE = ('all tables (id, x) with <= N rows, x over the mixed-type alphabet or mi
         'cells None/int/str of length 0-2/tuple/unhashable list and dict/missing, x every KIND of container '
         '(tuple, list, set, frozenset, dict, str with substring semantics, range, an object with __contains__ '
         'only), selectis/isnot, selectisinstance, '
+        'all value selectors (eq/ne/lt/le/gt/ge, in/notin x tuple and list containers of <= 2 members, is/isnot, '
+        'contains, facet) additionally over SEQUENCE-valued cells and reference values on tables <= 2 (3) rows: '
+        '(i1,i2), [i1,i2], (i1,), [i1], ((i1,),), ([i1],), [(i1,)], [[i1]], (), [], i1, None, missing — oracle for '
+        'eq/ne/in/notin/contains is plain Python ==; search also with regex flags (IGNORECASE, VERBOSE, both) and '
+        'patterns that only match under the flag; '
         'selectnone/notnone/true/false (also over every falsy value class: False, 0, 0.0, empty str/bytes/tuple/'
         'list), select with field / row / expression predicates (missing None and a '
         'marker), biselect, facet, search/searchcomplement (whole row, one field, several fields), rowlenselect '
@@ -37,7 +43,7 @@ RULE = ('all tables (id, x) with <= N rows, x over the mixed-type alphabet or mi
         'must equal the reference on the source as it is at that moment. states = distinct '
         '(table, selector, arguments, complement) points. A case (table, selector, arguments) is non-trivial '
         'when the selection and its complement are both non-empty. EXCLUDED (documentation gives no answer): '
-        'selecteq/selectne where Python == and the C04 equivalence differ (list vs tuple cells); single-/multi-'
+        'single-/multi-'
         'field search and multi-field selection on rows lacking that field; facet over unhashable cells; '
         'negative islice arguments; selectcontains on non-container cells; selectin/notin where the Python '
         'expression `v in value` itself raises TypeError (unhashable cell vs set/frozenset/dict, non-str cell vs '
@@ -82,7 +88,7 @@ def setup(tier, seed):
         base_opts = list(range(_BASE)) + [len(_A)]
         tabs.extend(itertools.product(base_opts, repeat=4))
     _TABLES = tabs
-    _CANON = {(type(v).__name__, repr(v)): v for v in _A}
+    _CANON = {(type(v).__name__, repr(v)): v for v in list(_A) + seq_alphabet()}
 
 
 def canon(v):
@@ -133,6 +139,9 @@ def items(tier, seed):
     for n in range(0, 8):
         out.append(('slice', n, 0))
     out.append(('contains', 0, 0))
+    for n in range(0, 4 if tier == 'thorough' else 3):
+        for first in (range(len(seq_alphabet()) + 1) if n >= 2 else (None,)):
+            out.append(('seq', n, first))
     for n in range(0, 4 if tier == 'thorough' else 3):
         for first in (range(len(IN2_SHAPES)) if n >= 2 else (None,)):
             out.append(('in2', n, first))
@@ -358,10 +367,15 @@ def evaluate(case):
         field, args = case['field'], tuple(case['args'])
         ops = {'cmp': CMP_OPS, 'range': RANGE_OPS, 'unary': UNARY_OPS, 'in': ('selectin', 'selectnotin'),
                'is': ('selectis', 'selectisnot'), 'contains': ('selectcontains',)}[form]
-        skip = ()
-        if form == 'cmp' and eq_ambiguous(table, args[0]):
-            skip = ('selecteq', 'selectne')
-        got, s = _bundle(fails, table, field, ops, args, skip)
+        if form in ('in', 'contains'):
+            try:
+                for r in table[1:]:
+                    R.PRED[ops[0]](R.cell(r, 1), *args)
+            except TypeError:
+                # the documented Python expression itself raises (needle in None, unhashable in set ...)
+                stats[4] = ('excluded', 'native-typeerror')
+                return fails, stats
+        got, s = _bundle(fails, table, field, ops, args)
         addstats(s)
         stats[2] += check_pairs(fails, table, got)
         stats[4] = _sel_mask(table, got)
@@ -504,17 +518,20 @@ def evaluate(case):
 
     if form == 'search':
         field, pattern = case['field'], case['pattern']
+        flags = case.get('flags', 0)
+        fkw = {'flags': flags} if flags else {}
         if field is None:
             fis, fargs = None, (pattern,)
         else:
             fl = field if isinstance(field, tuple) else (field,)
             fis = [HDR.index(f) if isinstance(f, str) else f for f in fl]
             fargs = (field, pattern)
-        exp = [R.search(table, pattern, fis, c) for c in (False, True)]
-        r0 = run(lambda: etl.search(table, *fargs))
-        r1 = run(lambda: etl.searchcomplement(table, *fargs))
-        r2 = run(lambda: etl.search(table, *fargs, complement=True))
-        what = '(t, %s%r)' % ('' if field is None else '%r, ' % (field,), pattern)
+        exp = [R.search(table, pattern, fis, c, flags) for c in (False, True)]
+        r0 = run(lambda: etl.search(table, *fargs, **fkw))
+        r1 = run(lambda: etl.searchcomplement(table, *fargs, **fkw))
+        r2 = run(lambda: etl.search(table, *fargs, complement=True, **fkw))
+        what = '(t, %s%r%s)' % ('' if field is None else '%r, ' % (field,), pattern,
+                                ', flags=%d' % flags if flags else '')
         compare(fails, 'search', table, r0, exp[0], 'search' + what)
         compare(fails, 'searchcomplement', table, r1, exp[1], 'searchcomplement' + what)
         compare(fails, 'search complement=True', table, r2, exp[1], 'search(complement=True)' + what)
@@ -651,6 +668,8 @@ def run_item(item, acc):
         return _run_truth(a, acc)
     if fam == 'in2':
         return _run_in2(a, b, acc)
+    if fam == 'seq':
+        return _run_seq(a, b, acc)
     if fam == 'history':
         return _run_history(a, acc)
     if fam == 'slice':
@@ -723,6 +742,11 @@ def run_item(item, acc):
             for field in fields:
                 for p in pats:
                     _do(acc, {'form': 'search', 'table': table, 'field': field, 'pattern': p}, 'search')
+                # non-default regex flags: patterns that only match under the flag
+                for p, fl in ((str(A[4]).swapcase(), re.IGNORECASE), (' ^ ' + str(A[1]) + ' ', re.VERBOSE),
+                              (' n O n ', re.IGNORECASE | re.VERBOSE)):
+                    _do(acc, {'form': 'search', 'table': table, 'field': field, 'pattern': p, 'flags': int(fl)},
+                        'search-flags')
         if first:
             acc.sample({'family': fam, 'table': table}, 1)
             first = False
@@ -857,6 +881,47 @@ def in2_containers():
     out.append(('range', [i1, i2 + 1]))
     out.append(('range', [0]))
     return out
+
+
+_SEQ = None
+
+
+def seq_alphabet():
+    """Sequence-valued cells / reference values: list vs tuple with equal items, nested, empty, plus
+    a scalar and None.  One object per value (identity matters for selectis)."""
+    global _SEQ
+    if _SEQ is None or _SEQ[0] != (_A[1], _A[2]):
+        i1, i2 = _A[1], _A[2]
+        _SEQ = ((i1, i2), [(i1, i2), [i1, i2], (i1,), [i1], ((i1,),), ([i1],), [(i1,)], [[i1]], (), [], i1,
+                           None])
+    return _SEQ[1]
+
+
+def _run_seq(n, first, acc):
+    """Value selectors over sequence-valued cells and reference values; oracle: plain Python
+    `cell == value` / `cell in value` / `cell is value` / `value in cell` (C04 order for lt/le/gt/ge)."""
+    S = seq_alphabet()
+    conts = []
+    for kind in (tuple, list):
+        conts.append(kind(()))
+        for v in S:
+            conts.append(kind((v,)))
+        for a, b in itertools.combinations(S, 2):
+            conts.append(kind((a, b)))
+    for combo in itertools.product(range(len(S) + 1), repeat=n):
+        if first is not None and combo[0] != first:
+            continue
+        table = [HDR] + [(i,) if c == len(S) else (i, S[c]) for i, c in enumerate(combo)]
+        for v in S:
+            for field in ('x', 1):
+                _do(acc, {'form': 'cmp', 'table': table, 'field': field, 'args': [v]}, 'cmp-sequences')
+            _do(acc, {'form': 'is', 'table': table, 'field': 'x', 'args': [v]}, 'is-sequences')
+            _do(acc, {'form': 'contains', 'table': table, 'field': 'x', 'args': [v]}, 'contains-sequences')
+        for cont in conts:
+            _do(acc, {'form': 'in', 'table': table, 'field': 'x', 'args': [cont]}, 'in-sequences')
+        if hashable_cells(table):
+            _do(acc, {'form': 'facet', 'table': table, 'field': 'x'}, 'facet-sequences')
+    acc.sample({'family': 'seq', 'rows': n}, 1)
 
 
 def _run_in2(n, first, acc):
@@ -1049,7 +1114,8 @@ def vacuity(cov, tier):
     c = cov['per_case_counters']
     for k in ('cmp', 'range', 'unary', 'in', 'is', 'isinstance', 'select-field', 'select-row', 'facet',
               'search', 'rowlenselect', 'selectusingcontext', 'rowslice', 'head', 'tail', 'skip',
-              'unary-truth', 'select-truth', 'in-container-kinds', 'history'):
+              'unary-truth', 'select-truth', 'in-container-kinds', 'history', 'cmp-sequences', 'is-sequences',
+              'in-sequences', 'contains-sequences', 'search-flags'):
         if not c.get('op:' + k):
             probs.append('no evaluation of ' + k)
         elif not c.get('nontrivial:' + k):
